@@ -106,7 +106,9 @@ pub struct Corruption {
 }
 
 fn corrupt_prefix(p: &str, kind: u8, other: &str) -> String {
-    match kind % 9 {
+    match kind % 11 {
+        9 => format!("{}_X@Y", p.to_uppercase()),
+        10 => format!("{}[]^", p.to_uppercase()),
         0 => other.to_string(),
         1 => p.to_uppercase(),
         2 => {
@@ -178,7 +180,10 @@ fn corrupt_addr(a: &str, kind: u8, other_prefix: &str) -> String {
 
 fn corrupt_channel(c: &str, kind: u8) -> String {
     let n = c.strip_prefix("channel-").unwrap_or("1");
-    match kind % 17 {
+    match kind % 20 {
+        17 => format!("channel\u{2013}{n}"),
+        18 => format!("ch\u{e9}nnel-{n}"),
+        19 => format!("channel-{n}\u{e9}"),
         14 => format!("channel-channel-{n}"),
         15 => format!("channel-{n}channel-"),
         16 => format!("channel-{n}\u{0}"),
@@ -202,7 +207,12 @@ fn corrupt_channel(c: &str, kind: u8) -> String {
 fn corrupt_ibc(d: &str, kind: u8) -> String {
     let h = d.strip_prefix("ibc/").unwrap_or(d);
     let h63: String = h.chars().take(63).collect();
-    match kind % 12 {
+    match kind % 16 {
+        // a multi-byte character inside the fixed prefix (same number of characters, different byte offsets)
+        12 => format!("ibc\u{e9}{h}"),
+        13 => format!("ib\u{e9}/{h}"),
+        14 => format!("\u{1F600}bc/{h}"),
+        15 => format!("ibc/{}\u{e9}", h63),
         // the fixed prefix repeated: the remainder after *one* "ibc/" is then 68 / 72 characters
         8 => format!("ibc/ibc/{h}"),
         9 => format!("ibc/ibc/ibc/{h}"),
